@@ -12,8 +12,11 @@ impl tsrun::platform::ConsoleProvider for Cap {
     fn clear(&self) {}
 }
 
+thread_local! { static BASE: RefCell<String> = RefCell::new("/p/".to_string()); }
+fn base() -> String { BASE.with(|b| b.borrow().clone()) }
 fn idx(p: &str) -> i64 {
-    p.strip_prefix("/p/m").and_then(|r| r.strip_suffix(".ts")).and_then(|r| r.parse::<i64>().ok()).unwrap_or(-1)
+    let pre = format!("{}m", base());
+    p.strip_prefix(pre.as_str()).and_then(|r| r.strip_suffix(".ts")).and_then(|r| r.parse::<i64>().ok()).unwrap_or(-1)
 }
 
 fn run_job(j: &serde_json::Value) -> serde_json::Value {
@@ -25,7 +28,8 @@ fn run_job(j: &serde_json::Value) -> serde_json::Value {
     let mut ev: Vec<serde_json::Value> = Vec::new();
     let rounds: Vec<Vec<i64>> = j["rounds"].as_array().map(|a| a.iter().map(|r| r.as_array().map(|x| x.iter().filter_map(|v| v.as_i64()).collect()).unwrap_or_default()).collect()).unwrap_or_default();
     let finish = j["finish"].as_bool().unwrap_or(false);
-    let mut r = it.prepare(&src(0), Some(ModulePath::new("/p/m0.ts")));
+    BASE.with(|b| *b.borrow_mut() = j["base"].as_str().unwrap_or("/p/").to_string());
+    let mut r = it.prepare(&src(0), Some(ModulePath::new(format!("{}m0.ts", base()))));
     let mut name = "prepare";
     let mut round = 0usize;
     let mut extra = 0usize;
@@ -47,7 +51,7 @@ fn run_job(j: &serde_json::Value) -> serde_json::Value {
                 let supply: Vec<i64> = if round < rounds.len() { let s = rounds[round].clone(); round += 1; s }
                     else if finish && extra < 40 { extra += 1; mods.clone() } else { break };
                 for m in supply {
-                    let pr = it.provide_module(ModulePath::new(format!("/p/m{}.ts", m)), &src(m));
+                    let pr = it.provide_module(ModulePath::new(format!("{}m{}.ts", base(), m)), &src(m));
                     if let Err(e) = pr { ev.push(serde_json::json!({"e": "provide_error", "m": m, "err": e.to_string()})); }
                     else { ev.push(serde_json::json!({"e": "provide", "m": m})); }
                 }
